@@ -181,6 +181,7 @@ pub fn run(args: &[String]) -> i32 {
     let a = parse_args(args);
     quiet_panics();
     let exec = |cid: &str, fmt: &str, seed: u64, req: &str| {
+        crate::util::running(cid, &format!("{fmt} {seed} {req}"));
         let (r, viol) = run_case(fmt, seed, req);
         println!("I {cid} {fmt} {seed} {req}");
         println!("O {cid} done");
